@@ -436,6 +436,12 @@ func checkCausal(p *Program, r *Report, fn *ssa.Function, key string, series map
 		if recv != nil && isNDType(recv.Type()) {
 			role = roleOf(recv)
 		}
+		// the element-wise whole-array operations of package data (dest[i] = g(dest[i], source[i]) for every i: R02.11
+		// decides the pairing) preserve the time index like CopyFrom does
+		if f := cc.StaticCallee(); f != nil && fnPkg(f) != nil && relPkg(fnPkg(f).Path()) == "data" && f.Signature.Recv() == nil &&
+			(strings.HasPrefix(f.Name(), "AddTo") || strings.HasPrefix(f.Name(), "Scale") || strings.HasPrefix(f.Name(), "ApplyFunc1")) && strings.HasSuffix(f.Name(), "Array") {
+			return
+		}
 		// delegation: series passed to a module function → analyse callee with mapped roles
 		if f := cc.StaticCallee(); f != nil && InModule(f) && f.Blocks != nil && depth < 3 && !isNDMethod(f) {
 			sub := map[ssa.Value]string{}
